@@ -83,7 +83,9 @@ def verdict (progs res : List (List String)) (a : Acc) : String :=
     | none => "ok"
 
 def judge (case out : String) : String :=
-  if out.startsWith "CRASH" || out.startsWith "panic" then "bad crash " ++ out
+  if out.startsWith "HANG-skipped" then "ok skipped"
+  else if out.startsWith "HANG" then "bad hang an Ask never returned: a logical thread blocked outside every schedule point"
+  else if out.startsWith "CRASH" || out.startsWith "panic" then "bad crash " ++ out
   else match case.splitOn "|", out.splitOn "|" with
     | [_, progs, _], [tr, rs, _] =>
       let progs := (progs.splitOn ";").map words
